@@ -249,3 +249,51 @@ func zzC13ReuseTwo() {
 }
 
 func ZZ_C13_ReuseTwo() { zzC13ReuseTwo() }
+
+// The data plane hands the handler views into a receive buffer that it re-uses for the next
+// notification (gtp5g: BufPkt is a slice of the netlink message body). A held packet must not change
+// when that buffer is overwritten afterwards: two notifications out of ONE backing array, the second
+// written over the first, then both released.
+func zzC13SharedBuffer() {
+	dp := &zzDP{}
+	s := zzNewServer(dp)
+	dp.ln = &s.lnode
+	n := s.NewNode(zzNodeA, zzAddrA, dp)
+	s.rnodes[zzNodeA] = n
+	x := s.lnode.NewSess(0x80, 2)
+	x.rnode = n
+	x.log = n.log
+	n.sess[x.LocalID] = struct{}{}
+	pdr := nondetU16("pdr")
+	pdr2 := pdr
+	if nondetChoice("other-pdr", 2) == 1 {
+		pdr2 = pdr + 1
+	}
+	buf := make([]byte, 4)
+	p1 := nondetBytes("first", 2)
+	p2 := nondetBytes("second", 2)
+	want1 := []byte{p1[0], p1[1]}
+	want2 := []byte{p2[0], p2[1]}
+	copy(buf, p1)
+	sr := report.SessReport{SEID: x.LocalID, Reports: []report.Report{report.DLDReport{PDRID: pdr, Action: report.APPLY_ACT_BUFF, BufPkt: buf[:2]}}}
+	s.ServeReport(&sr)
+	// the receive buffer is re-used for the next notification
+	copy(buf, p2)
+	sr2 := report.SessReport{SEID: x.LocalID, Reports: []report.Report{report.DLDReport{PDRID: pdr2, Action: report.APPLY_ACT_BUFF, BufPkt: buf[:2]}}}
+	s.ServeReport(&sr2)
+	// ... and once more after both are held
+	buf[0], buf[1], buf[2], buf[3] = 0xee, 0xee, 0xee, 0xee
+	a, ok := s.PopBufPkt(x.LocalID, pdr)
+	zzAssert("C13.shared.first-available", ok)
+	if ok {
+		zzAssert("C13.shared.first-unchanged", zzSameBytes(a, want1))
+	}
+	b, ok2 := s.PopBufPkt(x.LocalID, pdr2)
+	zzAssert("C13.shared.second-available", ok2)
+	if ok2 {
+		zzAssert("C13.shared.second-unchanged", zzSameBytes(b, want2))
+	}
+	zzCover("C13.shared.done")
+}
+
+func ZZ_C13_SharedBuffer() { zzC13SharedBuffer() }
